@@ -268,13 +268,17 @@ class XsdWildcard(XsdComponent):
 
     def union(self, other: Union['XsdAnyElement', 'XsdAnyAttribute']) -> None:
         """Update an XSD wildcard with the union of itself and another XSD wildcard."""
-        if not self.not_qname:
-            self.not_qname = copy(other.not_qname)
-        else:
-            self.not_qname = {
-                x for x in self.not_qname
-                if x in other.not_qname or not other.is_namespace_allowed(get_namespace(x))
-            }
+        # A name is excluded from the union only if it's excluded by both wildcards,
+        # by an explicit notQName or by the namespace constraint.
+        not_qname = {
+            x for x in self.not_qname
+            if x in other.not_qname or not other.is_namespace_allowed(get_namespace(x))
+        }
+        not_qname.update(
+            x for x in other.not_qname
+            if not self.is_namespace_allowed(get_namespace(x))
+        )
+        self.not_qname = not_qname
 
         if self.not_namespace:
             if other.not_namespace:
@@ -307,34 +311,40 @@ class XsdWildcard(XsdComponent):
                 self.namespace.add('##any')
             return
 
-        w1: XsdWildcard
-        w2: XsdWildcard
-        if not other.namespace or '##any' in self.namespace or self.namespace == other.namespace:
+        excluded: set[str]
+        if not other.namespace or '##any' in self.namespace:
             return
         elif '##any' in other.namespace:
             self.namespace.clear()
             self.namespace.add('##any')
             return
         elif '##other' in other.namespace:
-            w1, w2 = other, self
+            if '##other' in self.namespace:
+                excluded = {'', other.target_namespace} & {'', self.target_namespace}
+            else:
+                excluded = {ns for ns in ('', other.target_namespace)
+                            if ns not in self.namespace}
         elif '##other' in self.namespace:
-            w1, w2 = self, other
+            excluded = {ns for ns in ('', self.target_namespace)
+                        if ns not in other.namespace}
         else:
             self.namespace.update(other.namespace)
             return
 
-        if w1.target_namespace in w2.namespace and '' in w2.namespace:
+        # Union with a negation: any namespace is allowed except the ones excluded
+        # by the negation that are not admitted by the other wildcard.
+        if not excluded:
             self.namespace.clear()
             self.namespace.add('##any')
-        elif '' not in w2.namespace and w1.target_namespace == w2.target_namespace:
+        elif excluded == {'', self.target_namespace}:
             self.namespace.clear()
             self.namespace.add('##other')
-        elif self.xsd_version == '1.0':
+        elif self.xsd_version == '1.0' and '' not in excluded:
             msg = _("not expressible wildcard namespace union: {0!r} V {1!r}:")
             raise XMLSchemaValueError(msg.format(other.namespace, self.namespace))
         else:
             self.namespace.clear()
-            self.not_namespace = {'', w1.target_namespace}
+            self.not_namespace = excluded
 
     def intersection(self, other: Union['XsdAnyElement', 'XsdAnyAttribute']) -> None:
         """Update an XSD wildcard with the intersection of itself and another XSD wildcard."""
